@@ -1031,7 +1031,7 @@ impl Scenario for C02 {
     }
     fn runs(&self, tier: Tier) -> u64 {
         match tier {
-            Tier::Quick => 1_200,
+            Tier::Quick => 2_000,
             Tier::Thorough => 200_000,
         }
     }
